@@ -4,11 +4,15 @@ PROPERTIES = ['C%02d' % i for i in range(1, 21)]
 
 ESZ = {'B': 1, 'W': 4, 'T3': 3, 'R': 2, 'X': 16}
 
-def vec_cfg(kind, n, e, ak=0, s='uint8_t', cls=2, faults=None, cmax=None, extra=None):
+def vec_cfg(kind, n, e, ak=0, s='uint8_t', cls=2, faults=None, cmax=None, count=None, extra=None):
     d = {'VF_KIND': kind, 'VF_N': n, 'VF_E': e, 'VF_AK': ak, 'VF_S': s, 'VF_CLS': cls}
-    if cmax is not None: d['VF_CMAX'] = cmax
+    ledger = e in ('R', 'X')
+    if kind == 2: cmax = n
+    elif cmax is None: cmax = n + 1 if ledger else n + 3
+    if count is None: count = 2 if ledger else 3
+    d['VF_CMAX'] = cmax; d['VF_COUNT_MAX'] = count; d['VF_MAXM'] = cmax + count + 1
+    if ledger: d['VF_NID'] = 24
     if faults: d['VF_FAULTS'] = faults
-    if e in ('R', 'X'): d['VF_NID'] = 40
     if extra: d.update(extra)
     return d
 
@@ -21,7 +25,7 @@ def cfg_name(d):
 
 def arena_for(d, slots=None):
     n = d['VF_N']; cmax = d.get('VF_CMAX', n + 3)
-    need = max((3 * cmax + 1) // 2, cmax + 3) + 1
+    need = max((3 * cmax + 1) // 2, cmax + d.get('VF_COUNT_MAX', 3)) + 1
     sz = (need * ESZ[d['VF_E']] + 15) // 16 * 16
     return (slots or 4, max(sz, 16))
 
@@ -33,13 +37,14 @@ VEC_OPS_UNARY = ['push_back_copy', 'push_back_move', 'emplace_back', 'pop_back',
 VEC_OPS_CTOR = ['ctor_default', 'ctor_n', 'ctor_n_val', 'ctor_range', 'ctor_range_input', 'ctor_il']
 VEC_OPS_BINARY = ['copy_assign', 'move_assign', 'swap_member', 'compare']
 
-def vec_queries(Query, ops, cfgs, timeout=300, unwind=14):
+def vec_queries(Query, ops, cfgs, timeout=300, unwind=None):
     qs = []
     for d in cfgs:
         for op in ops:
-            qs.append(Query('%s.%s' % (op, cfg_name(d)), 'vec_ops.cpp', 'h_' + op, defs=d, arena=arena_for(d), unwind=unwind, timeout=timeout,
+            qs.append(Query('%s.%s' % (op, cfg_name(d)), 'vec_ops.cpp', 'h_' + op, defs=d, arena=arena_for(d), unwind=unwind or d['VF_MAXM'] + 2, timeout=timeout,
+                            mem_gb=(5 if d['VF_E'] in ('R', 'X') else 3) * (2 if 'input' in op else 1),
                             symbolic='state class (inline/heap), size, capacity, element values, position, count, value',
-                            bounds=dict(N=d['VF_N'], size_max=d.get('VF_CMAX', d['VF_N'] + 3), capacity_max=d.get('VF_CMAX', d['VF_N'] + 3), count_max=3, values='8-bit')))
+                            bounds=dict(N=d['VF_N'], size_max=d.get('VF_CMAX', d['VF_N'] + 3), capacity_max=d.get('VF_CMAX', d['VF_N'] + 3), count_max=d.get('VF_COUNT_MAX', 3), values='8-bit')))
     return qs
 
 FS_OPS = ['insert', 'emplace', 'insert_hint', 'erase_key', 'erase_pos', 'erase_range', 'clear', 'lookup', 'insert_node', 'extract',
